@@ -522,6 +522,50 @@ def run(ctx: Ctx):
                         periods[nm] = None
                 elif isinstance(s, ast.Assign) and norm(s.targets[0]) == "upper":
                     periods[nm + ":upper"] = isinstance(s.value, ast.Constant) and s.value.value
+    # table form: {name: (period, upper)} consulted with the limit's name and unpacked into period / upper
+    mod_consts, mod_tables = {}, {}
+    for st in setl.module.tree.body:
+        tg, val = (st.targets[0], st.value) if isinstance(st, ast.Assign) and len(st.targets) == 1 else \
+            ((st.target, st.value) if isinstance(st, ast.AnnAssign) else (None, None))
+        if not isinstance(tg, ast.Name) or val is None:
+            continue
+        if isinstance(val, ast.Dict):
+            mod_tables[tg.id] = val
+        else:
+            try:
+                mod_consts[tg.id] = eval(compile(ast.Expression(val), "<const>", "eval"), {"__builtins__": {}}, dict(mod_consts))
+            except Exception:
+                pass
+    local_tables = {n.targets[0].id: n.value for n in own_nodes(setl) if isinstance(n, ast.Assign) and isinstance(n.targets[0], ast.Name)
+                    and isinstance(n.value, ast.Dict)}
+    for c_ in own_nodes(setl):
+        tab = None
+        if isinstance(c_, ast.Call) and isinstance(c_.func, ast.Attribute) and c_.func.attr == "get" and c_.args and norm(c_.args[0]) == "name" \
+                and isinstance(c_.func.value, ast.Name):
+            tab = local_tables.get(c_.func.value.id) or mod_tables.get(c_.func.value.id)
+        elif isinstance(c_, ast.Subscript) and isinstance(c_.value, ast.Name) and norm(c_.slice) == "name":
+            tab = local_tables.get(c_.value.id) or mod_tables.get(c_.value.id)
+        if tab is None:
+            continue
+        # the looked-up pair must be what period / upper are unpacked from
+        holder = getattr(c_, "_parent", None)
+        while isinstance(holder, (ast.IfExp,)):
+            holder = getattr(holder, "_parent", None)
+        src = {norm(holder.targets[0])} if isinstance(holder, ast.Assign) else set()
+        src.add(norm(c_))
+        unpack = [n for n in own_nodes(setl) if isinstance(n, ast.Assign) and isinstance(n.targets[0], ast.Tuple)
+                  and [norm(e) for e in n.targets[0].elts] == ["period", "upper"] and norm(n.value) in src]
+        if not unpack:
+            continue
+        for k, v in zip(tab.keys, tab.values):
+            nm = const_str(k) if k is not None else None
+            if nm is None or not (isinstance(v, ast.Tuple) and len(v.elts) == 2):
+                continue
+            try:
+                periods[nm] = eval(compile(ast.Expression(v.elts[0]), "<const>", "eval"), {"__builtins__": {}}, dict(mod_consts))
+            except Exception:
+                periods[nm] = None
+            periods[nm + ":upper"] = isinstance(v.elts[1], ast.Constant) and v.elts[1].value
     exp = {"dailymax": 86400, "weeklymax": 604800, "dailymax:upper": True, "weeklymax:upper": True}
     ok = all(periods.get(k) == v for k, v in exp.items())
     ctx.ob("R05.4", f"{setl.qual}: period table {dict((k, periods.get(k)) for k in exp)}", setl, ok,
